@@ -1651,7 +1651,23 @@ fn exec_wfloat_r<T: SimFloat, const F: u128>(ty: FloatTy, radix: u8, bits: u64, 
         return;
     }
     if !well_formed_float(&got, radix as u32, exp_char) {
-        out.fail(tag, format!("output \"{}\" is not a well-formed radix-{} float", text, radix));
+        // class named by a known finding: the generic-radix writer (rarely) emits a "digit" equal to the radix
+        let carry_digit = digit_char(radix as u32);
+        let only_that = {
+            let mut t = got.clone();
+            for b in t.iter_mut() {
+                if *b == carry_digit {
+                    *b = b'1';
+                }
+            }
+            well_formed_float(&t, radix as u32, exp_char)
+        };
+        let kf = if !pow2 && got.contains(&carry_digit) && only_that {
+            "radix-writer-digit-equals-radix"
+        } else {
+            ""
+        };
+        out.fail_tagged(tag, kf, format!("output \"{}\" is not a well-formed radix-{} float", text, radix));
         return;
     }
     match guarded(|| lexical_core::parse_with_options::<T, F>(&got, &popts)) {
@@ -1694,7 +1710,28 @@ fn exec_pfloat_r<T: SimFloat, const F: u128>(radix: u8, text: &[u8], expect: u64
             out.record = format!("{} {}", show_f(&c), show_fp(&p));
             match &c {
                 Ok(v) if v.to_b() == expect => {},
-                r => out.fail("C05", format!("returned {}, the exact value is {:#x}", show_f(r), expect)),
+                r => {
+                    // class named by a known finding: in radices that are not powers of two, very long inputs next to
+                    // a rounding boundary are (rarely) rounded to the wrong neighbour
+                    let ty = if core::mem::size_of::<T>() == 4 {
+                        FloatTy::F32
+                    } else {
+                        FloatTy::F64
+                    };
+                    let tag = match r {
+                        Ok(v)
+                            if !radix.is_power_of_two()
+                                && text.len() > 40
+                                && ty.is_finite(v.to_b())
+                                && ty.is_finite(expect)
+                                && ty.ulp_distance(v.to_b(), expect) == 1 =>
+                        {
+                            "radix-long-near-halfway-1ulp"
+                        },
+                        _ => "",
+                    };
+                    out.fail_tagged("C05", tag, format!("returned {}, the exact value is {:#x}", show_f(r), expect))
+                },
             }
             match (&c, &p) {
                 (Ok(v), Ok((w, n))) if v.to_b() == w.to_b() && *n == text.len() => {},
